@@ -7,6 +7,7 @@ import Momtrop.Props.C11
 import Momtrop.Props.C12
 import Momtrop.Props.C13BM
 import Momtrop.Props.C14
+import Mathlib.MeasureTheory.Function.JacobianOneDim
 /-!
 # C01 — the estimator is unbiased (partial: algebraic reduction)
 
@@ -16,7 +17,8 @@ parametrisation nor the measure of the sector sample is available in Mathlib, so
 is **not** proved. What is proved is that the code computes every algebraic ingredient of the standard
 derivation; the three classical theorems that turn them into the integral identity are cited
 (Schwinger parametrisation + Gaussian integral; Borinsky's tropical-sampling theorem for the sector
-density `U_tr^{-D/2} V_tr^{-dod}/I_tr`; inverse-CDF). Box–Muller is proved (`C13.boxMuller_law`). `reduction` collects the ingredients.
+density `U_tr^{-D/2} V_tr^{-dod}/I_tr`). Box–Muller (`C13.boxMuller_law`), the Gaussian law of the momenta
+(`C10.momenta_law`) and the inverse-CDF lemma (`inverse_cdf_law`, abstract: for an exact quantile function) are proved. `reduction` collects the ingredients.
 -/
 namespace Momtrop.C01
 open Momtrop Scalar Matrix MeasureTheory
@@ -35,6 +37,21 @@ theorem det_momentum_map (Lm Qti : Matrix (Fin L) (Fin L) ℝ) (c : ℝ) (hQ : Q
   rw [det_smul, Fintype.card_fin]
   calc (c ^ L * Qti.det) ^ 2 * Lm.det = c ^ (2 * L) * (Qti.det * Lm.det * Qti.det) := by ring
     _ = c ^ (2 * L) := by rw [h1, mul_one]
+
+/-- **Inverse-CDF lemma.** Let `F` be differentiable and injective on `(0,∞)` with `F '' (0,∞) = (0,1)` and let `G` be a
+right inverse on `(0,1)` with values in `(0,∞)`. Then the image of the uniform law on `(0,1)` under `G` has density
+`|F'|` on `(0,∞)`. -/
+theorem inverse_cdf_law (F F' G : ℝ → ℝ) (hF : ∀ x ∈ Set.Ioi (0:ℝ), HasDerivWithinAt F (F' x) (Set.Ioi 0) x)
+    (hinj : Set.InjOn F (Set.Ioi 0)) (himg : F '' Set.Ioi 0 = Set.Ioo 0 1)
+    (hG : ∀ p ∈ Set.Ioo (0:ℝ) 1, G p ∈ Set.Ioi (0:ℝ) ∧ F (G p) = p) (f : ℝ → ENNReal) :
+    ∫⁻ p in Set.Ioo (0:ℝ) 1, f (G p) = ∫⁻ x in Set.Ioi (0:ℝ), ENNReal.ofReal (_root_.abs (F' x)) * f x := by
+  rw [← himg, lintegral_image_eq_lintegral_abs_deriv_mul measurableSet_Ioi hF hinj]
+  apply setLIntegral_congr_fun measurableSet_Ioi
+  intro x hx
+  have hp : F x ∈ Set.Ioo (0:ℝ) 1 := by rw [← himg]; exact Set.mem_image_of_mem F hx
+  obtain ⟨h1, h2⟩ := hG (F x) hp
+  have : G (F x) = x := hinj h1 hx h2
+  simp only [this]
 
 /-- The ingredients of the unbiasedness derivation, each a theorem about the model (see the modules). -/
 structure Reduction : Prop where
@@ -55,6 +72,10 @@ structure Reduction : Prop where
   /-- (iv') Box–Muller theorem: a uniform pair of coordinates gives two independent standard normals -/
   gaussLaw : ∀ (f : ℝ × ℝ → ENNReal), Measurable f →
       ∫⁻ p in Set.Ioo (0:ℝ) 1 ×ˢ Set.Ioo (0:ℝ) 1, f (boxMuller p.1 p.2) = ∫⁻ z, f z * ENNReal.ofReal (C13.gauss2 z)
+  /-- (iv'') inverse-CDF lemma: the quantile of a uniform number has the density of the CDF -/
+  icdf : ∀ (F F' G : ℝ → ℝ), (∀ x ∈ Set.Ioi (0:ℝ), HasDerivWithinAt F (F' x) (Set.Ioi 0) x) → Set.InjOn F (Set.Ioi 0) →
+      F '' Set.Ioi 0 = Set.Ioo 0 1 → (∀ p ∈ Set.Ioo (0:ℝ) 1, G p ∈ Set.Ioi (0:ℝ) ∧ F (G p) = p) → ∀ f : ℝ → ENNReal,
+      ∫⁻ p in Set.Ioo (0:ℝ) 1, f (G p) = ∫⁻ x in Set.Ioi (0:ℝ), ENNReal.ofReal (_root_.abs (F' x)) * f x
   /-- (v) at the returned momenta the weighted propagator sum is `c²|q|² + (pᵀXp − uᵀL⁻¹u)` -/
   momenta : ∀ {E L : ℕ} (S : Matrix (Fin E) (Fin L) ℝ) (x p : Fin E → ℝ) (q : Fin L → ℝ) (c : ℝ)
       (Li Qti : Matrix (Fin L) (Fin L) ℝ), lMat S x * Li = 1 → Qtiᵀ * lMat S x * Qti = 1 →
@@ -81,6 +102,7 @@ theorem reduction : Reduction where
   rescale := fun T uTr vTr loops h1 h2 h3 h4 h5 => C07.rescaling_normalises T uTr vTr loops h1 h2 h3 h4 h5
   gauss := fun a b h0 h1 => C13.box_muller_radius a b h0 h1
   gaussLaw := fun f hf => C13.boxMuller_law_model f hf
+  icdf := fun F F' G h1 h2 h3 h4 f => inverse_cdf_law F F' G h1 h2 h3 h4 f
   momenta := fun S x p q c Li Qti h1 h2 => C10.propSum_at_sample S x p q c Li Qti h1 h2
   momentaLaw := fun Lm Qti Li c hc hQ hs u f hf => C10.momenta_law Lm Qti Li c hc hQ hs u f hf
   jac := fun Lm Qti c h => det_momentum_map Lm Qti c h
